@@ -472,8 +472,8 @@ def _decide_with_doubled_tol(ctx, C, impl, ref, rerun):
     if 'ok' in g2 and 'ok' in m2 and 'ConvergenceWarning' not in g2.get('warned', []) \
             and not m2.get('warned') and maxdiff(g2['ok'], m2['ok']) <= 1e-6 \
             and maxdiff(g2['ok'], ref['ok']) <= 1e-6:
-        ctx.skip('stopping test at rounding-noise level: one of model/implementation ran to the '
-                 'iteration cap, both stop and agree with tol=2e-10')
+        ctx.skip('stopping test at rounding-noise level: model and implementation stop many sweeps apart (or one runs to the '
+                 'iteration cap); both stop and agree within 1e-6 with tol=2e-10')
         return True
     return False
 
